@@ -174,7 +174,7 @@ def make_matrix(rng, N, kind):
         P = rng.normal(size=(N, int(rng.integers(1, 4))))
         D = np.sqrt(((P[:, None] - P[None]) ** 2).sum(-1))
         D = (D + D.T) / 2
-    elif kind == "M2":
+    elif kind in ("M2", "MZ"):
         A = rng.uniform(0.1, 10, size=(N, N))
         D = np.triu(A, 1)
         D = D + D.T
@@ -230,6 +230,8 @@ def make_matrix(rng, N, kind):
     else:
         raise ValueError(kind)
     np.fill_diagonal(D, 0.0)
+    if kind == "MZ":
+        np.fill_diagonal(D, rng.uniform(0.05, 0.5, size=N))       # self-dissimilarities that are not zero (still finite, non-negative)
     return D
 
 
